@@ -9,6 +9,7 @@ import ExprModel.Drv.Spec
 import ExprModel.Drv.SrcDefects
 import ExprModel.Drv.Types
 import ExprModel.Drv.Walk
+import ExprModel.Drv.Wf
 /-
 The model driver: one request per line on stdin (an S-expression `(tag arg…)`), one response per line
 on stdout.  Core-only (no Mathlib, no proof modules), so it links as a `lean_exe` and keeps building
@@ -21,6 +22,7 @@ def handlers : List (String × (List Sexp → Sexp)) :=
   Drv.parseHandlers ++
   Drv.codeHandlers ++
   Drv.specHandlers ++
+  Drv.wfHandlers ++
   Drv.sourceHandlers ++
   Drv.lexHandlers ++
   Drv.walkHandlers ++
